@@ -96,6 +96,13 @@ def state_stores(node, state_name):
     return out
 
 
+def _func_of(node):
+    cur = node
+    while cur is not None and not isinstance(cur, ast.FunctionDef):
+        cur = getattr(cur, '_parent', None)
+    return cur
+
+
 def enclosing_fors(node, stop):
     out = []
     cur = getattr(node, '_parent', None)
@@ -110,14 +117,18 @@ def classify_store(store, state_name, loop, species_bound='num_species', reactio
     """Classify a store into the state array.
 
     returns (kind, detail): kind in 'immediate' / 'delayed' / 'queue' / 'other'."""
-    if not isinstance(store, ast.AugAssign) or not isinstance(store.op, ast.Add):
+    af = util.aug_form(store)
+    if af is None or af[1] is not ast.Add:
         return 'other', 'not an accumulation: %s' % util.stmt_key(store)
-    idx = src(store.target.slice)
+    target, _, value = af
+    fdef = _func_of(store)
+    defs = util.single_defs(fdef) if fdef is not None else {}
+    idx = src(target.slice)
     fors = enclosing_fors(store, loop)
     frange = {src(f.target): src(f.iter) for f in fors}
     if frange.get(idx) != 'range(%s)' % species_bound:
         return 'other', 'species index %s does not range over range(%s)' % (idx, species_bound)
-    v = store.value
+    v = value
     if isinstance(v, ast.Subscript) and isinstance(v.slice, ast.Tuple) and len(v.slice.elts) == 2:
         m, (i, r) = src(v.value), [src(e) for e in v.slice.elts]
         if i != idx:
@@ -127,6 +138,8 @@ def classify_store(store, state_name, loop, species_bound='num_species', reactio
         return ('immediate' if 'delay' not in m else 'delayed'), (m, r)
     if isinstance(v, ast.BinOp) and isinstance(v.op, ast.Mult):
         a, b = v.left, v.right
+        # an amount read into a temporary (`amt = buf[r]` at one site) stands for that read
+        a, b = util.resolve_alias(a, defs), util.resolve_alias(b, defs)
         if isinstance(a, ast.Subscript) and isinstance(b, ast.Subscript) and isinstance(a.slice, ast.Tuple):
             a, b = b, a
         if isinstance(b, ast.Subscript) and isinstance(b.slice, ast.Tuple) and isinstance(a, ast.Subscript):
